@@ -21,6 +21,15 @@ def main():
     if a.only:
         names = [n for n in names if n in a.only.split(",")]
     run_cases(chk, "vlib.numbering", "numbering_case", names, {"tier": a.tier}, a.jobs)
+    # second sentence of C03 on every interior-facet kernel of the wider corpus + grammar-generated forms
+    from vlib import randforms
+    fnames = [n for n in corpus.select("c02", "c03", "c05", "c09", quick=(a.tier == "quick")) if "interior_facet" in corpus.REG[n]["itypes"]]
+    nrand = 60 if a.tier == "quick" else 400
+    rn = [randforms.name_of(chk.seed, i) for i in range(nrand)]
+    rn = [n for n in rn if randforms.describe(n).get("itype") == "interior_facet"]
+    if not a.only:
+        run_cases(chk, "vlib.kernelprops", "permflag", fnames + rn, {"tier": a.tier, "options": {"table_rtol": 1e-13, "table_atol": 1e-13}}, a.jobs)
+        chk.extra["flag_programs"] = len(fnames) + len(rn)
     chk.encoded("ffcx.ir.elementtables.permute_quadrature_interval/triangle/quadrilateral (real functions, symbolic point)",
                 "interior-facet kernels: tables indexed by quadrature_permutation (elementtables.build_optimized_tables, access.table_access)")
     chk.bounds = {"programs": len(names), "renumberings": "quick: identity x 5-6 renumberings of '-' plus 2 mixed pairs, 2 baseline facet pairs; thorough: up to 48 (sigma+,sigma-) pairs + all sigma-, up to 9 facet pairs",
